@@ -406,7 +406,7 @@ func (bc *boundsCtx) term(v ssa.Value) lterm {
 				return me
 			}
 		}
-		if isCallTo(x, "bytes.Index", "bytes.IndexByte", "strings.Index", "strings.IndexByte") {
+		if isCallTo(x, "bytes.Index", "bytes.IndexByte", "strings.Index", "strings.IndexByte", "bytes.LastIndex", "bytes.LastIndexByte", "strings.LastIndex", "strings.LastIndexByte", "bytes.IndexAny", "strings.IndexAny", "bytes.IndexRune", "strings.IndexRune") {
 			me := lterm{bc.name(v), 0}
 			bc.z.addLE(lconst(-1), me)
 			bc.z.addLT(me, bc.lenOf(x.Call.Args[0]))
